@@ -18,7 +18,7 @@ PROP = 'C19'
 
 
 def Bases(tier, rng):
-  n = int(os.environ.get('VERIF_N', 0)) or (70 if tier == 'quick' else 2500)
+  n = int(os.environ.get('VERIF_N', 0)) or (70 if tier == 'quick' else 1000)
   out = []
   for i in range(n):
     k = i % 6
